@@ -229,7 +229,7 @@ def directed_case(rng, kind, analysis=None, floating=True):
     g.element('R', ['3', '0'])
     g.element('R', ['3', '4'])
     g.element(rng.choice(['R', 'C', 'L']) if analysis != 'dc' else 'R', ['4', '0'])
-    g.element('R', ['2', '3']) if rng.random() < 0.5 else None
+    g.element('R', ['2', '3'])      # keeps nodes 3 and 4 alive (non-zero control voltages / currents)
     perm = list(n)
     if rng.random() < 0.5:
         perm = [perm[1], perm[0], perm[2], perm[3]]
